@@ -1,10 +1,10 @@
 package main
 
 import (
-	"os"
 	"crypto/sha1"
 	"encoding/hex"
 	"fmt"
+	"os"
 	"sort"
 	"strings"
 
